@@ -210,6 +210,36 @@ Theorem c12_category_entries :
 Proof. exact category_view_ok. Qed.
 Print Assumptions c12_category_entries.
 
+(* typeTotals: summed over the categories, each bucket (spending / income / investment / transfer) is the
+   sum of that bucket's contributions over ALL analysed transactions, each classified by its own tags —
+   i.e. the analysed spending / income / investment / transfers-in+out totals *)
+Definition c12_type_totals_statement : Prop :=
+  forall (f : txn -> Z) ms, NoDup (map m_name ms) ->
+    sumZ (map (cat_tt f) (category_view ms)) = sumZ (map f (flat_map m_txns ms)).
+Theorem c12_type_totals_refuted : ~ c12_type_totals_statement.
+Proof. intros H. specialize (H tt_spending w_ms w_ms_names). vm_compute in H. discriminate. Qed.
+Print Assumptions c12_type_totals_refuted.
+
+Theorem c12_type_totals_partial :
+  forall (f : txn -> Z) ms, NoDup (map mid ms) ->
+    sumZ (map (cat_tt f) (category_view ms)) = sumZ (map f (flat_map m_txns ms)).
+Proof. exact type_totals_all. Qed.
+Print Assumptions c12_type_totals_partial.
+
+Theorem c12_type_totals_listed :
+  forall (f : txn -> Z) cv, sumZ (map (cat_tt f) cv) = sumZ (map f (flat_map j_txns (view_merchants cv))).
+Proof. exact type_totals_listed. Qed.
+Print Assumptions c12_type_totals_listed.
+
+(* non-vacuity: one merchant whose transactions carry different special tags (two purchases, one payout
+   tagged Income, one TRANSFER): classified per transaction, not by the merchant's collected tags *)
+Example c12_type_totals_example :
+  let T a tg := {| t_desc := cps "x"; t_amount := a; t_month := cps "2025-01"; t_tags := tg; t_source := cps "S"; t_extra := [] |} in
+  let ms := [ {| m_name := cps "PayPal"; m_cat := cps "Shopping"; m_sub := cps "Online"; m_total := 38400; m_count := 4;
+                 m_txns := [T 2560 []; T 3840 []; T 32000 [cps "Income"]; T (-6400) [cps "TRANSFER"; cps "x"]] |} ] in
+  map type_totals (category_view ms) = [(6400, (32000, (0, 6400)))].
+Proof. vm_compute. reflexivity. Qed.
+
 (* non-vacuity: distinct ids, three categories (one of them "Unknown", one empty), negative and zero totals *)
 Example c12_category_example :
   let ms := [ {| m_name := cps "O'Neil ""Q"""; m_cat := cps "Food"; m_sub := cps "Grocery"; m_total := 640; m_count := 2;
